@@ -6,6 +6,13 @@ EXTENDS Integers, Sequences, FiniteSets
 
 WH(c) == [op |-> "wh", c |-> c]
 W     == [op |-> "w",  c |-> 0]
+(* http.NewResponseController(w).Hijack() against a client writer whose      *)
+(* Hijack succeeds (1), fails (2), or that is no http.Hijacker at all (3:     *)
+(* ErrNotSupported, the client writer is not called)                         *)
+HJ(mode) == [op |-> "hj", c |-> mode]
+(* http.NewResponseController(w).Flush(): reaches the client through Unwrap; *)
+(* like a Write it commits the header (implicit 200)                         *)
+FL    == [op |-> "fl", c |-> 0]
 
 (* Handler behaviours of the property's quantifier ("WriteHeader or not, any *)
 (* code"), plus the orders and status classes net/http treats specially.     *)
@@ -25,8 +32,24 @@ BehOps(b) ==
       [] b = "wh304"  -> <<WH(304)>>
       [] b = "wh599"  -> <<WH(599), W>>
       [] b = "wh999"  -> <<WH(999)>>               \* the largest code net/http accepts
+      \* optional interfaces
+      [] b = "hj"      -> <<HJ(1)>>                 \* the handler takes the connection over
+      [] b = "hjfail"  -> <<HJ(2), WH(500), W>>     \* Hijack fails, the handler answers 500
+      [] b = "hjunsup" -> <<HJ(3), WH(501)>>        \* no Hijacker underneath
+      [] b = "flush"   -> <<WH(200), FL, W>>
+      [] b = "flfirst" -> <<FL, WH(500)>>           \* the flush has already sent 200
 AllBehNames == {"none", "w", "wh200", "wh404", "wh500", "twice", "afterw"}
 ClassBehNames == {"wh101", "wh103", "hints", "wh204", "wh304", "wh599", "wh999"}
+HijackBehNames == {"hj", "hjfail", "hjunsup", "flush", "flfirst"}
+
+(* Request-target forms (RFC 9112 3.2).  The RequestURI field of the request *)
+(* is the target as the client sent it; URL.RequestURI() re-derives a target *)
+(* from the parsed URL and differs for the absolute form (scheme and host    *)
+(* are dropped) and the authority form ("/" instead of host:port).  "escaped"*)
+(* stands for origin-form targets with %2F, %7e, "//", a bare "?".           *)
+Forms == {"origin", "absolute", "authority", "asterisk", "escaped"}
+RequestURIOf(f) == <<"sent", f>>
+UrlRequestURIOf(f) == IF f \in {"absolute", "authority"} THEN <<"rebuilt", f>> ELSE <<"sent", f>>
 
 WhCodes(o) == {o[i].c : i \in {j \in 1..Len(o) : o[j].op = "wh"}}
 LastWh(o)  == LET I == {j \in 1..Len(o) : o[j].op = "wh"}
@@ -38,7 +61,8 @@ LastWh(o)  == LET I == {j \in 1..Len(o) : o[j].op = "wh"}
 (* WriteHeader with a final code (101 or >= 200) wins; a Write before that,  *)
 (* or the end of the handler, implies 200.                                   *)
 Informational(c) == c >= 100 /\ c <= 199 /\ c # 101
-Decisive(calls) == {x \in 1..Len(calls) : calls[x].op = "w" \/ ~Informational(calls[x].c)}
+Decisive(calls) == {x \in 1..Len(calls) : (calls[x].op \in {"w", "fl"})
+                                           \/ (calls[x].op = "wh" /\ ~Informational(calls[x].c))}
 ClientStatus(calls) ==
     IF Decisive(calls) = {} THEN 200
     ELSE LET x == CHOOSE y \in Decisive(calls) : \A z \in Decisive(calls) : y <= z
